@@ -239,6 +239,17 @@ static void sub_zerocopy() {
               c.check(!Z->own_data, "zero_copy:ownership", "zero_copy matrix claims ownership of user memory"); c.check(backend::bytes(*Z) == 0, "zero_copy:bytes", "zero-copy matrix reports owned bytes");
               check_all(c, "zero_copy<ptrdiff_t>", *Z, S, r);
               auto Z2 = Z; backend::crs<double> moved(std::move(*Z2)); c.check(!moved.own_data, "zero_copy:ownership-after-move", "moving a zero-copy matrix made it the owner"); }
+            // move ASSIGNMENT into objects that own storage of their own (default-constructed, holding a copy, element of a container):
+            // the target must not end up owning -- and later freeing -- the user arrays (a free shows up as a crash under ASan, the
+            // flag is checked in every flavour).  (added after a seeded change dropped own_data from the move assignment)
+            { auto Z = adapter::zero_copy(n, m, ptr.data(), col.data(), val.data());
+              backend::crs<double> t1; t1 = std::move(*Z); c.check(!t1.own_data && arrays_identical(t1, ptr.data(), col.data(), val.data()), "zero_copy:ownership-after-move-assignment", "move-assigning a zero-copy matrix into an empty crs made the target the owner of user memory (or lost the aliasing)");
+              auto Zb = adapter::zero_copy(n, m, ptr.data(), col.data(), val.data()); backend::crs<double> t2(*Zb);   // t2 owns a private copy
+              c.check(t2.own_data || t2.nnz == 0, "crs:copy-owns", "copy of a zero-copy matrix does not own its storage"); t2 = std::move(*Zb);
+              c.check(!t2.own_data, "zero_copy:ownership-after-move-assignment", "move-assigning a zero-copy matrix into an owning crs made the target the owner of user memory");
+              std::vector<backend::crs<double>> pool(2); auto Zc = adapter::zero_copy(n, m, ptr.data(), col.data(), val.data()); pool[1] = std::move(*Zc);
+              c.check(!pool[1].own_data, "zero_copy:ownership-after-move-assignment", "move-assigning a zero-copy matrix into a container element made it the owner of user memory"); }
+            unchanged("zero_copy_move_assignment");
             unchanged("zero_copy");
             { std::vector<size_t> up(ptr.begin(), ptr.end()), uc(col.begin(), col.end()); const std::vector<size_t> up0 = up, uc0 = uc;
               { auto Z = adapter::zero_copy(n, m, up.data(), uc.data(), val.data()); c.check(arrays_identical(*Z, up.data(), uc.data(), val.data()), "zero_copy<size_t>:pointer-identity", "zero_copy does not alias the user arrays"); check_all(c, "zero_copy<size_t>", *Z, S, r); }
